@@ -17,45 +17,32 @@ ORDER_SAFE_VEC = {'push', 'with_capacity', 'new', 'len', 'into_iter', 'iter', 'e
 def subset_filter_role(ctx, b):
     """Check that body b(self, solutions) returns the sub-sequence of `solutions` on the false edge of collides.
     Returns list of problems (empty = holds)."""
-    problems = []
-    for ci, ct in b.calls():
-        n = cname(callee_name(ct))
-        m = n.split('::')[-1]
-        if m in opw.VEC_REMOVERS or m in opw.VEC_REORDER or m in opw.ITER_DROPPERS or m.startswith('par_'):
-            problems.append('order-changing / element-dropping operation `%s` at %s' % (n, b.where(ci)))
-    pushes = [(bi, t) for bi, t in b.calls() if cname(callee_name(t)) == 'Vec::push']
-    if len(pushes) != 1:
-        problems.append('expected exactly one push into the filtered vector, found %d' % len(pushes))
-        return problems
-    bi, t = pushes[0]
-    elem = strip(b.op_term(t['args'][1], (bi, None)))
-    src = util.loop_source(elem)
-    if src is None:
-        problems.append('pushed value is not the loop element: ' + show(elem, maxdepth=4))
-        return problems
-    base, ad = util.iter_chain(src)
-    if not util.is_param(base, 2) or any(a not in ('into_iter', 'iter', 'cloned', 'copied') for a in ad):
-        problems.append('filter does not iterate its input sequentially (source %s, adaptors %s)' % (show(base, maxdepth=3), ad))
-    # guard: false edge of RobotBody::collides(self.body, &elem, self.kinematics)
-    found = False
-    for g, key, sw in b.guard_terms(bi):
-        g = strip(g)
-        if isinstance(g, tuple) and g[0] == 'call' and cname(g[1]) == 'RobotBody::collides':
-            same = strip(g[3]) == elem
-            body_ok = _is_self_field_path(g[2], 'body')
-            kin_ok = util.is_self_field(g[4], 'kinematics')
-            if opw.truth(key) is False and same and body_ok and kin_ok:
-                found = True
-            else:
-                problems.append('push is guarded by collides() with polarity=%s same-element=%s body=%s kinematics=%s' % (opw.truth(key), same, body_ok, kin_ok))
-    if not found and not problems:
-        problems.append('push is not on the false edge of RobotBody::collides for the pushed element')
-    # returned vector is the pushed-into vector; no reordering/removing op anywhere
-    dest_vec = strip(b.op_term(t['args'][0], (bi, None)))
-    rv = [strip(x[0]) for x in b.return_values()]
-    if not all(r == dest_vec for r in rv):
-        problems.append('returned value is not the vector receiving the pushes')
-    return problems
+    def pred(body, g, elem):
+        if cname(g[1]) != 'RobotBody::collides':
+            return None
+        e = strip(g[3])
+        while isinstance(e, tuple) and e[0] in ('ref', 'deref'):
+            e = e[1]
+        el = elem
+        while isinstance(el, tuple) and el[0] in ('ref', 'deref'):
+            el = el[1]
+        same = e == el
+        body_ok = _is_self_field_path(_unenv(g[2]), 'body')
+        kin_ok = util.is_self_field(_unenv(g[4]), 'kinematics')
+        return False if (same and body_ok and kin_ok) else None
+    ok, desc = util.subsequence_filter(ctx.prog, b, 2, pred)
+    return [] if ok else [desc]
+
+
+def _unenv(t):
+    """closure upvar `self` -> the method's self"""
+    def f(x):
+        if not isinstance(x, tuple):
+            return x
+        if x[0] == 'fld' and x[2] in ('*self', 'self') and util.is_param(x[1], 1):
+            return ('param', 1, 'self')
+        return (x[0],) + tuple(f(y) if isinstance(y, tuple) else y for y in x[1:])
+    return f(t)
 
 
 def _is_self_field_path(t, field):
